@@ -72,10 +72,14 @@ type EPObs struct {
 
 func epChain() *Chain { return stdChainByKey("good3") }
 
-func epStatement(level string) (trustpolicy.SignatureVerification, []string, []string) {
+func epStatement(level string, tsa bool) (trustpolicy.SignatureVerification, []string, []string) {
 	sv := trustpolicy.SignatureVerification{VerificationLevel: level}
 	if level == "skip" {
 		return sv, nil, nil
+	}
+	if tsa {
+		// time-stamped signatures: the statement lists a tsa store, so the countersignature is verified (incl. TSA revocation)
+		return sv, []string{"ca:s1", "tsa:t1"}, []string{"*"}
 	}
 	return sv, []string{"ca:s1"}, []string{"*"}
 }
@@ -87,7 +91,8 @@ func epVerifier(in EPIn, withPluginMgr bool) (interface {
 	ch := epChain()
 	st := newMockTrustStore()
 	st.put(truststore.TypeCA, "s1", ch.Root())
-	sv, stores, ids := epStatement(in.Level)
+	sv, stores, ids := epStatement(in.Level, in.Sig == "validTS")
+	st.put(truststore.TypeTSA, "t1", tsaGood().chain.Root())
 	opts := verifier.VerifierOptions{RevocationTimestampingValidator: ctxValidator{&mockRevocation{}}}
 	bad := trustpolicy.SignatureVerification{VerificationLevel: ""} // a statement without level: invalid
 	if strings.HasPrefix(in.Construct, "both-") {
@@ -160,6 +165,8 @@ func epSignatureFor(in EPIn, format string, id int, d ocispec.Descriptor) []byte
 	switch in.Sig {
 	case "valid":
 		return env
+	case "validTS":
+		return cachedEnv(key+"|ts", func() []byte { return WithTimestampToken(format, env, tsaGood().token(SignatureValue(format, env), at(-1), 1)) })
 	case "invalid":
 		return FlipSignature(format, env, id)
 	case "garbage":
@@ -467,7 +474,16 @@ func runFuzzBytes() int {
 				must(cache.Set(ctx, url, jobBundle("w1", 1, 3)))
 				p := filepath.Join(root, sha256hex(url))
 				orig, _ := os.ReadFile(p)
-				must(os.WriteFile(p, mutate(r, orig), 0600))
+				if kinds := []string{"", "", "deltaEmpty", "deltaNotDER", "baseNotDER", "swapped", "trailing", "foreignJSON"}; kinds[k%len(kinds)] != "" {
+					// structured unusual files (as other tools or older versions might leave them), then possibly mutated further
+					corruptFile(p, kinds[k%len(kinds)])
+					if k%3 == 0 {
+						b, _ := os.ReadFile(p)
+						must(os.WriteFile(p, mutate(r, b), 0600))
+					}
+				} else {
+					must(os.WriteFile(p, mutate(r, orig), 0600))
+				}
 				var pn bool
 				var msg string
 				delta := allocDelta(func() { pn, msg = guarded(func() { _, _ = cache.Get(ctx, url) }) })
